@@ -903,6 +903,12 @@ def execute(scen):
         except Exception as e:
             raised = e
             bump(res['exceptions'], type(e).__name__)
+            if world in ('S', 'P') and not isinstance(e, _Injected):
+                # every callable returned normally, yet the analysis aborted with an exception: it neither reached
+                # full load nor stopped on the minimum increment (e.g. a singular tangent must lead to a cut-back)
+                mon.violation = mon.violation or Violation('I4-termination', {
+                    'why': 'analysis aborted with an exception although no callable raised', 'exception': repr(e)[:200],
+                    'increments': [float(x) for x in (an.increments or [])][-4:]}, step=mon.event)
         finally:
             _uninstall_monitoring(codes)
             nr.msg, nr.warn = old_msg, old_warn
